@@ -92,12 +92,15 @@ pub struct Chunked {
     sched: Sched,
     calls: usize,
     rnd: u64,
+    /// source fault: once this many `read` calls have succeeded every `read` returns `Err(Other)` (seek keeps working)
+    fail_after: Option<usize>,
+    ok_reads: usize,
 }
 
 impl Chunked {
     fn new(data: Vec<u8>, sched: Sched) -> Chunked {
         let rnd = if let Sched::Rand(s, _) = sched { s } else { 0 };
-        Chunked { data, pos: 0, sched, calls: 0, rnd }
+        Chunked { data, pos: 0, sched, calls: 0, rnd, fail_after: None, ok_reads: 0 }
     }
     fn next_limit(&mut self) -> usize {
         let i = self.calls;
@@ -122,6 +125,12 @@ impl Chunked {
 
 impl Read for Chunked {
     fn read(&mut self, buf: &mut [u8]) -> std::io::Result<usize> {
+        if let Some(k) = self.fail_after {
+            if self.ok_reads >= k {
+                return Err(std::io::Error::new(std::io::ErrorKind::Other, "injected read error"));
+            }
+        }
+        self.ok_reads += 1;
         let lim = self.next_limit();
         let rem = self.data.len().saturating_sub(self.pos);
         let n = buf.len().min(lim).min(rem);
@@ -222,6 +231,9 @@ struct Sess {
     ended: bool,
     dead: bool,
     ticked: bool,
+    /// the source is a fault-injecting stream: completeness clauses are not evaluated (the property presupposes a source
+    /// that can be read), the flag / slice / order / window clauses are
+    fault: bool,
     tmp: Option<std::path::PathBuf>,
 }
 
@@ -359,6 +371,7 @@ impl BencEngine {
             }
         };
         let mut tmp = None;
+        let mut fault = false;
         let obj2 = obj.clone();
         let md5 = prepos.is_none();
         let mk_file = |this: &mut BencEngine| -> std::path::PathBuf {
@@ -398,10 +411,24 @@ impl BencEngine {
                             Box::new(f)
                         }
                     }
-                    s if s.starts_with("chk:") => match parse_sched(&s[4..]) {
-                        Some(x) => Box::new(Chunked::new(obj2, x)),
-                        None => return "bad-op".into(),
-                    },
+                    s if s.starts_with("chk:") => {
+                        let (spec, fail) = match s[4..].split_once('!') {
+                            None => (&s[4..], None),
+                            Some((a, k)) => match k.parse::<usize>() {
+                                Ok(k) => (a, Some(k)),
+                                Err(_) => return "bad-op".into(),
+                            },
+                        };
+                        match parse_sched(spec) {
+                            Some(x) => {
+                                let mut c = Chunked::new(obj2, x);
+                                c.fail_after = fail;
+                                fault = fail.is_some();
+                                Box::new(c)
+                            }
+                            None => return "bad-op".into(),
+                        }
+                    }
                     _ => return "bad-op".into(),
                 };
                 let mut stream = stream;
@@ -486,6 +513,7 @@ impl BencEngine {
             ended: false,
             dead: false,
             ticked: false,
+            fault,
             tmp,
         });
         format!("ok {}", l)
@@ -783,7 +811,7 @@ fn oracle(s: &Sess, o: &mut Oracle) {
                 break;
             }
         }
-        if !cut {
+        if !cut && !s.fault {
             // every source symbol exactly once
             let mut missing = 0u64;
             let mut first_missing = None;
@@ -1121,6 +1149,27 @@ pub fn run(ctx: &mut Ctx, eng: &mut dyn Engine) {
             zn += 1;
             let c = Cfg { scheme: "nocode", e: 4, b: 3, p: 0, win: 2, maxtc: 1, allow: false, car: false, cenc, src: src.into(), seed: zn, len: 40 };
             one_case(ctx, eng, &format!("cenc-stream-{}", zn), &c, "cenc-stream");
+        }
+    }
+
+    // 4b. source faults: the k-th read() of the stream fails (and every later one) ----------------------------------------
+    let mut fnn = 0u64;
+    for scheme in ["nocode", "rs28", "raptorq"] {
+        for (e, b, p, len, chunk) in [(4u64, 4u64, 2u64, 40u64, 5u64), (2, 2, 1, 7, 1), (4, 3, 2, 20, 3), (16, 5, 1, 200, 7)] {
+            for win in [1u64, 2, 3] {
+                for maxtc in [1u64, 2] {
+                    let reads = len / chunk + 4;
+                    for k in 0..=reads {
+                        if !thorough && k > 3 && rng.below(3) != 0 {
+                            continue;
+                        }
+                        fnn += 1;
+                        let c = Cfg { scheme, e, b, p, win, maxtc, allow: false, car: fnn % 5 == 0, cenc: "null", src: format!("chk:f{}!{}", chunk, k), seed: 40 + fnn, len };
+                        one_case(ctx, eng, &format!("fault-{}", fnn), &c, "source-fault");
+                        ctx.nontrivial(&c.key());
+                    }
+                }
+            }
         }
     }
 
